@@ -98,7 +98,7 @@ TABLE = {
     "band_format": ("BAND_FORMAT", "--band-format", "value"), "qpoints_format": ("QPOINTS_FORMAT", "--qpoints-format", "value"),
     "include_all": ("INCLUDE_ALL", "--include-all", "true"), "fc_calc": ("FC_CALCULATOR", "--fc-calc", "value"),
     # phonopy-load only (NAC and FC_SYMMETRY default to on there)
-    "tdisp": ("TDISP", "--td", "true"), "mass": ("MASS", "--mass", "value"),
+    "tdisp": ("TDISP", "--td", "true"), "mass": ("MASS", "--mass", "value"), "hdf5": ("HDF5", "--hdf5", "true"),
     "nonac": ("NAC", "--nonac", "false"), "no_sym_fc": ("FC_SYMMETRY", "--no-sym-fc", "false"),
 }
 
@@ -241,6 +241,10 @@ def gen_post_step(rng, w, has_born, prev_wrote_fc, force_cmd=None):
         s["tolerance"] = 1e-4
     if rng.random() < 0.15:
         s["include_all"] = True
+    if rng.random() < 0.08 and mode in ("mesh", "band", "qpoints") and not any(k.endswith("_format") for k in s):
+        s["hdf5"] = True  # all outputs of the step in hdf5
+    if rng.random() < 0.2 and mode in ("dos", "tprop"):
+        s["nowritemesh"] = True
     if rng.random() < 0.15 and mode != "readfc":
         s["mass"] = "__AUTO__"  # filled at run time: one (modified) mass per atom of the primitive cell
     return dict(mode=mode, cmd=cmd, settings=s)
@@ -475,7 +479,7 @@ def parse_outputs(path, step):
     out = {}
     j = lambda f: os.path.join(path, f)  # noqa: E731
     if mode in ("mesh", "readfc"):
-        if s.get("mesh_format") == "hdf5":
+        if s.get("mesh_format") == "hdf5" or s.get("hdf5"):
             with h5py.File(j("mesh.hdf5"), "r") as f:
                 out.update(q=f["qpoint"][:], w=f["weight"][:], freq=f["frequency"][:], gv=f["group_velocity"][:] if "group_velocity" in f else None, _dec=None)
         else:
@@ -498,7 +502,7 @@ def parse_outputs(path, step):
             out["mesh_q"] = np.array([p["q-position"] for p in ym["phonon"]])
             out["mesh_w"] = np.array([p["weight"] for p in ym["phonon"]])
             out["mesh_freq"] = np.array([[b["frequency"] for b in p["band"]] for p in ym["phonon"]])
-        if s.get("band_format") == "hdf5":
+        if s.get("band_format") == "hdf5" or s.get("hdf5"):
             with h5py.File(j("band.hdf5"), "r") as f:
                 out.update(q=f["path"][:].reshape(-1, 3), freq=f["frequency"][:].reshape(-1, f["frequency"].shape[-1]),
                            gv=f["group_velocity"][:].reshape(-1, f["frequency"].shape[-1], 3) if "group_velocity" in f else None, _dec=None)
@@ -509,7 +513,7 @@ def parse_outputs(path, step):
             out["gv"] = np.array([[b["group_velocity"] for b in p["band"]] for p in y["phonon"]]) if "group_velocity" in y["phonon"][0]["band"][0] else None
             out["_dec"] = simfs.printed_decimals(open(j("band.yaml")).read())
     elif mode == "qpoints":
-        if s.get("qpoints_format") == "hdf5":
+        if s.get("qpoints_format") == "hdf5" or s.get("hdf5"):
             with h5py.File(j("qpoints.hdf5"), "r") as f:
                 out.update(q=f["qpoint"][:], freq=f["frequency"][:], gv=f["group_velocity"][:] if "group_velocity" in f else None,
                            dm=f["dynamical_matrix"][:] if "dynamical_matrix" in f else None, _dec=None)
@@ -808,10 +812,15 @@ def execute(spec):
             step_eff = dict(step, cmd=cmd, settings=s)
             # the library reference must see the directory as it was BEFORE the step (a write-fc step overwrites files that
             # the next discovery would read)
+            mesh_before = any(os.path.exists(os.path.join(A.path, f_)) for f_ in ("mesh.yaml", "mesh.hdf5"))
             refdir = refdirs.enter_context(simfs.RunDir("c18r-"))
             shutil.copytree(A.path, refdir.path, dirs_exist_ok=True)
-            rA = run_cli(A.path, cmd, full, routes, positional)
+            # verbosity must not change any file: one of the two invocations is made chattier / quieter
+            vflag = [[], [], ["-v"], ["-q"]][(spec["seed"] + k) % 4]
+            rA = run_cli(A.path, cmd, full, routes, positional + vflag)
             rB = run_cli(B.path, cmd, full, swapped, positional)
+            if vflag:
+                faults["verbosity:" + vflag[0]] = faults.get("verbosity:" + vflag[0], 0) + 1
             label = "%s[%s]" % (mode, cmd)
             if rA["code"] != 0 or rB["code"] != 0:
                 if (rA["code"] != 0) != (rB["code"] != 0):
@@ -885,6 +894,8 @@ def execute(spec):
                     cmp_num("force_constants", a, b, 15 if dec else None, bad)
             for name, why in bad:
                 V("cli-differs-from-library", "%s:%s%s" % (label, name, stale_tag), why=why, settings=s, argv=rA["argv"])
+            if s.get("nowritemesh") and any(os.path.exists(os.path.join(A.path, f_)) for f_ in ("mesh.yaml", "mesh.hdf5")) and not mesh_before:
+                V("cli-differs-from-library", "%s:WRITE_MESH=.FALSE.-ignored" % label, files=sorted(os.listdir(A.path)))
             steps_d["post_steps_completed"] += 1
             probes["mode:%s" % mode] = probes.get("mode:%s" % mode, 0) + 1
             probes["cmd:%s" % cmd] = probes.get("cmd:%s" % cmd, 0) + 1
